@@ -164,10 +164,12 @@ def run(ctx):
                     tree.extend(parent, txs=[tx])
                     tree.extend(sib_parent, txs=[tx] + ([] if rng.random() < 0.5 else tree.random_txs(sib_parent, 0)))
                     continue
+            # the reward's data field at the lengths where its stored encoding is as long as other kinds of signature field
+            forced_len = {1: 59, 2: 58, 3: 60, 4: 200}.get(k)
             if rng.random() < 0.4 and len(tree.blocks) > 1:
-                tree.extend(rng.choice(tree.blocks[-5:]).hash())
+                tree.extend(rng.choice(tree.blocks[-5:]).hash(), data_len=forced_len)
             else:
-                tree.extend()
+                tree.extend(data_len=forced_len)
         blocks = tree.blocks[1:]                          # arrival order (parents before children)
         path = os.path.join(os.getcwd(), "c08_%d.db" % si)
         if os.path.exists(path):
